@@ -1,0 +1,51 @@
+//! Verification hook (compiled only with `--cfg dashu_verif`): counters of rarely taken branches.
+//!
+//! The word-level algorithms have branches that ordinary operands never reach (a carry that runs
+//! through a whole block, equal top words, a guessed quotient that is off). A conformance run that
+//! never takes such a branch says nothing about it, so the harness reads these counters to search
+//! for operands that do and to report which branches a run exercised.
+
+use core::sync::atomic::{AtomicUsize, Ordering};
+
+/// Names of the probes, in the order of their indices.
+pub const NAMES: [&str; 8] = [
+    "toom3:carry-c0-propagates",
+    "toom3:carry-c1-propagates",
+    "toom3:carry-c2-propagates",
+    "toom3:carry-c3-propagates",
+    "lehmer:step-out-of-order",
+    "lehmer-ext:step-out-of-order",
+    "div-simple:equal-top-words",
+    "gcd-ext:euclid-step-with-top-quotient-word",
+];
+
+#[allow(clippy::declare_interior_mutable_const)]
+const ZERO: AtomicUsize = AtomicUsize::new(0);
+static HITS: [AtomicUsize; 8] = [ZERO; 8];
+
+#[inline]
+pub(crate) fn hit(probe: usize) {
+    HITS[probe].fetch_add(1, Ordering::Relaxed);
+}
+
+/// Number of times each probe has fired since the process started.
+pub fn hits() -> [usize; 8] {
+    let mut out = [0; 8];
+    for (o, h) in out.iter_mut().zip(HITS.iter()) {
+        *o = h.load(Ordering::Relaxed);
+    }
+    out
+}
+
+/// Would adding `carry` (-1, 0 or 1) to the little-endian number `words` carry out of it?
+#[inline]
+pub(crate) fn word_carry_propagates(
+    words: &[crate::arch::word::Word],
+    carry: crate::arch::word::SignedWord,
+) -> bool {
+    match carry {
+        0 => false,
+        c if c > 0 => words.iter().all(|w| *w == crate::arch::word::Word::MAX),
+        _ => words.iter().all(|w| *w == 0),
+    }
+}
